@@ -1,6 +1,6 @@
 SPECIFICATION Spec
 CONSTANTS
-  OPS = {"create1", "create1json", "create2", "parse", "boot", "cache", "cachenv", "reuse1", "create3", "create3perm", "create3rel"}
+  OPS = {"create1", "create1json", "create2", "parse", "boot", "cache", "cachenv", "reuse1", "create3", "create3perm", "create3rel", "parsehA", "parsehB"}
   MAXLEN = 4
   EMIT = TRUE
 INVARIANT SameKeySameInputs
